@@ -96,6 +96,7 @@ class Emitter:
         self.nounwind = nounwind           # mangled name -> bool
         self.fns = {}                      # id -> Fn
         self.records = {}                  # id -> Record
+        self.field_decls = {}              # id -> FieldDecl node
         self.rec_by_spelling = {}
         self.alias = {}
         self.name_decl_count = collections.Counter()   # (record id or ns, name) -> number of declarations (incl. patterns)
@@ -191,6 +192,7 @@ class Emitter:
             ck = c.get('kind')
             if ck == 'FieldDecl':
                 r.fields.append(c)
+                self.field_decls[c['id']] = c
             elif ck == 'CXXRecordDecl' and c.get('completeDefinition') and c.get('name') != n.get('name'):
                 self._index_record(c, ns, r)
             elif ck == 'CXXRecordDecl':
@@ -623,6 +625,16 @@ class FnLower:
     def ct(self, t):
         return self.em.ct(t)
 
+    def is_ref_type(self, t):
+        """C++ reference type? (typedef'd reference types included: decided on the desugared type)"""
+        q = (t.get('desugaredQualType') or t.get('qualType') or '').strip()
+        if q.endswith('&'):
+            return True
+        try:
+            return self.ct(t).is_ref
+        except TypeErr:
+            return False
+
     def flush(self):
         for s in self.pre:
             self.w(s)
@@ -723,7 +735,7 @@ class FnLower:
             if ft.is_struct() and e.get('kind') == 'CXXConstructExpr':
                 self.construct_into('&self->%s' % nm, e)
                 self.flush()
-            elif fld['type']['qualType'].strip().endswith('&'):
+            elif self.is_ref_type(fld['type']):
                 self.rule('r3')
                 v = self.addr(e)
                 self.flush()
@@ -824,7 +836,7 @@ class FnLower:
         if t.tag:
             return
         inner = [x for x in c.get('inner', []) if x.get('kind') not in ('AlignedAttr',)]
-        is_ref = c['type']['qualType'].strip().endswith('&')
+        is_ref = self.is_ref_type(c['type'])
         if is_ref:
             self.rule('r3')
             v = self.addr(inner[0])
@@ -1136,7 +1148,7 @@ class FnLower:
                     self.rule('r5')
                     return 'CAP_' + (self.em.role(self.f.record.args[1]) or 'N')
                 raise Unsupported('reference to unknown variable %s' % r.get('name'))
-            if r['type']['qualType'].strip().endswith('&'):
+            if self.is_ref_type(r['type']):
                 return '(*%s)' % name
             return name
         if rk in FN_KINDS:
@@ -1148,6 +1160,13 @@ class FnLower:
         raise Unsupported('DeclRefExpr to %s' % rk)
 
     def ex_MemberExpr(self, n):
+        fd = self.em.field_decls.get(n.get('referencedMemberDecl'))
+        if fd is not None and self.is_ref_type(fd['type']):
+            self.rule('r3')
+            return '(*%s)' % self._member_expr(n)       # a reference member denotes its referee
+        return self._member_expr(n)
+
+    def _member_expr(self, n):
         base = n['inner'][0]
         name = n['name']
         if n.get('isArrow'):
